@@ -266,6 +266,9 @@ def run_markov(tier, acc):
             zero = [(L, 0.5 ** (i + 2) if i < 2 else 0.0) for i, L in enumerate(levels)]
             variants.append(('zero-tied', zero))
         if len(levels) >= 3:
+            # three levels in one group
+            variants.append(('tied3', [(L, 0.125 if i < 3 else 0.5 ** (i + 4)) for i, L in enumerate(levels)]))
+        if len(levels) >= 3:
             # a higher level that is more probable than a lower one (small or skewed training lists): the file lists level 3 before level 2
             order = [levels[0], levels[2], levels[1]] + levels[3:]
             variants.append(('level-order', [(L, 0.5 ** (i + 2)) for i, L in enumerate(order)]))
@@ -299,6 +302,19 @@ def run_markov(tier, acc):
                     acc.fail(case, 'Markov group %d (levels %r): got %d strings %r, expected %d %r' % (i, vals, len(lines), sorted(lines)[:6], len(ref), sorted(ref)[:6]), sig)
                 elif n != len(lines):
                     acc.fail(case, 'Markov count %r != lines %d' % (n, len(lines)), 'count')
+                elif len(vals) >= 2 and len(lines) <= 60:
+                    # the same group under a guess limit (what -n hands down): the first min(N, total) of these lines, and a count that says so
+                    for N in range(1, len(lines) + 2):
+                        acc.evals += 1
+                        try:
+                            ll, nn = capture(g, pt, limit=N)
+                        except Exception as e:
+                            acc.fail(dict(case, limit=N), 'Markov group %d (levels %r) with limit %d: create_guesses raised %r' % (i, vals, N, e), 'raise')
+                            break
+                        if ll != lines[:N] or nn != len(ll):
+                            acc.fail(dict(case, limit=N), 'Markov group %d (levels %r) with limit %d: wrote %d lines (count says %r), the group holds %d; first difference at line %d'
+                                     % (i, vals, N, len(ll), nn, len(lines), next((k for k, (x, y) in enumerate(zip(ll, lines)) if x != y), min(len(ll), len(lines)))), 'markov-limit')
+                            break
                 acc.sample({'kind': 'markov', 'levels': vals, 'guesses': lines[:5]}, cap=3)
     tree.rmtree(root)
 
